@@ -296,6 +296,9 @@ func (u *Unit) oblige(s *State, name string, props []string, kind, goal string, 
 			}
 			env := u.bodyEnv(s, u.fn)
 			env.paramsEntry = true
+			for k, v := range u.resultNames {
+				env.names[k] = v // result names are available to classes of ensures obligations
+			}
 			c, err := env.formula(f.Class)
 			if err != nil {
 				panic(abortUnit{fmt.Sprintf("known_findings.json: class of %s: %v", f.Obligation, err)})
